@@ -12,19 +12,27 @@ class RequestStreamRequester(StreamHandler, DefaultPublisherSubscription, Reques
     def __init__(self, socket: RSocket, payload: Payload):
         super().__init__(socket)
         self.payload = payload
+        self._is_requested = False
 
     def setup(self):
         pass
 
     def subscribe(self, subscriber: Subscriber):
         super().subscribe(subscriber)
+
+        if self._is_finished:
+            return  # cancelled from within on_subscribe: nothing was requested, nothing to send
+
+        self._is_requested = True
         self._send_stream_request(self.payload)
 
     def cancel(self):
         if self._is_finished:
             return
 
-        self.send_cancel()
+        if self._is_requested:
+            self.send_cancel()
+
         self._finish_stream()
 
     def request(self, n: int):
